@@ -578,8 +578,13 @@ pub fn run(ctx: &Ctx) -> ! {
     let (mut confirmations, mut reproduced) = (0usize, 0usize);
     let mut spurious = 0u64;
     for d in real_deaths {
+        if d.status.starts_with("exit Some(3)") {
+            // the decode thread of the worker panicked outside the decoder: a bug of this harness
+            rep.machinery_error(format!("worker failed at space index {} outside the code under test: {}", d.index, d.stderr_tail));
+            continue;
+        }
         let inp = sp.input(d.index);
-        if d.status.starts_with("hang") && (confirmations < 16 || reproduced == 0) {
+        if d.status.starts_with("hang") && (confirmations < 4 || reproduced == 0) {
             confirmations += 1;
             let again = run_alone(ctx, DECODERS[inp.seg.decoder].name, &inp.bytes);
             if !again.deaths.is_empty() {
